@@ -17,10 +17,10 @@ Definition wstep (s : wst) (i : Z) (r : obs) : wst * (bool * option Z) :=
   let d := word_decision (w_last s) r pp p (o_wb r) (k =? i - 1) (o_pic r) (snd rt) in
   (mkWst r pp p (o_wb r) k (fst rt), (fst d, if snd d then Some k else None)).
 
-Lemma step_wproj cr i r next :
-  wproj (fst (fst (step cr i r next))) = fst (wstep (wproj cr) i r)
-  /\ a_word (snd (fst (step cr i r next))) = fst (snd (wstep (wproj cr) i r))
-  /\ snd (step cr i r next) = snd (snd (wstep (wproj cr) i r)).
+Lemma step_wproj cr i r next aft :
+  wproj (fst (fst (step cr i r next aft))) = fst (wstep (wproj cr) i r)
+  /\ a_word (snd (fst (step cr i r next aft))) = fst (snd (wstep (wproj cr) i r))
+  /\ snd (step cr i r next aft) = snd (snd (wstep (wproj cr) i r)).
 Proof.
   unfold step, wstep. cbv zeta.
   cbn [wproj w_w w_p w_pp w_k w_ri w_last start_iteration c_word c_prevWord c_prevPrevWord c_prevWordNoExtend c_wRIOdd c_prev c_r c_isExtPic].
@@ -59,8 +59,8 @@ Lemma loop_w : forall rest cr i done attrs,
 Proof.
   induction rest as [|r rest IH]; intros cr i done attrs.
   - cbn [loop app wfold].
-    pose proof (step_wproj cr i obs_psep obs_nul) as (Hp & Hw & Hr).
-    destruct (step cr i obs_psep obs_nul) as [[cr' a] rm]. cbn [fst snd] in Hp, Hw, Hr.
+    pose proof (step_wproj cr i obs_psep obs_nul (o_lb obs_nul)) as (Hp & Hw & Hr).
+    destruct (step cr i obs_psep obs_nul (o_lb obs_nul)) as [[cr' a] rm]. cbn [fst snd] in Hp, Hw, Hr.
     rewrite <- Hw, <- Hr.
     destruct rm as [k|].
     + destruct (_ || _); [discriminate|]. intros H; inversion H; subst.
@@ -68,8 +68,8 @@ Proof.
     + intros H; inversion H; subst. rewrite map_app. reflexivity.
   - cbn [loop app wfold].
     set (next := match rest with [] => obs_psep | n :: _ => n end).
-    pose proof (step_wproj cr i r next) as (Hp & Hw & Hr).
-    destruct (step cr i r next) as [[cr' a] rm]. cbn [fst snd] in Hp, Hw, Hr.
+    pose proof (step_wproj cr i r next (after_marks r rest)) as (Hp & Hw & Hr).
+    destruct (step cr i r next (after_marks r rest)) as [[cr' a] rm]. cbn [fst snd] in Hp, Hw, Hr.
     rewrite <- Hw, <- Hr, <- Hp.
     destruct rm as [k|].
     + destruct (_ || _); [discriminate|]. intros H. apply IH in H.
